@@ -118,7 +118,7 @@ func TestVerifC09Seeded(t *testing.T) {
 	rep.Assume("timestamps never equal the age cutoff (a segment exactly as old as the limit is not specified by the documentation)")
 	rep.Assume("committed readers are only checked when the HW lies in the surviving suffix (retention is allowed to delete past the HW; what a committed reader does then is outside C09)")
 	root := kit.NewRNG(kit.Mix(kit.Seed(), 0xC09))
-	ncases := kit.Scale(900, 4500)
+	ncases := kit.Scale(1400, 4500)
 	seeds := make([]uint64, ncases)
 	for i := range seeds {
 		seeds[i] = root.Uint64()
